@@ -201,6 +201,11 @@ def _one_okay(ctx, R, roles, T):
         callers = set(cs.func for cs in cg.callers_of(okay))
         R.check(callers == {ru}, "ACK", okay.qualname + "|callers", "_okay is called only from _read_until",
                 "_okay is called from %s; acknowledgements may only be sent for a WRTE delivered by _read_until" % ", ".join(sorted(c.qualname for c in callers)) if callers else "_okay is never called: device WRITEs are not acknowledged", okay.loc())
+    if okay is not None:
+        go = ctx.cfg(okay)
+        snd = [n for n in go.live_nodes() for c in node_calls(n) if ctx.cg.site(c) is not None and roles.send_locked in ctx.cg.site(c).callees]
+        R.check(len(snd) == 1 and go.dominates([snd[0]], go.exit, exc=False), "ACK", okay.qualname + "|always-sends", "_okay sends its message on every path",
+                "_okay can return without sending the OKAY (an early return or a conditional send): the WRTE it was called for stays unacknowledged", okay.loc())
     g = ctx.cfg(ru)
     df = ctx.df(ru)
     pumps = callee_nodes(ctx, ru, roles.pump)
